@@ -439,8 +439,11 @@ def main(argv):
         "violations": len(violations),
     }
     if not replay:
-        os.makedirs(os.path.join(VERIF, "evidence"), exist_ok=True)
-        json.dump(ev, open(os.path.join(VERIF, "evidence", pid + ".json"), "w"), indent=1, default=str)
+        # runs against a scratch copy of the repository (VERIF_REPO) must not overwrite the committed evidence
+        scratch = os.environ.get("VERIF_REPO", "/repo").rstrip("/") not in ("", "/repo")
+        evdir = os.path.join(WORK, "evidence-scratch") if scratch else os.path.join(VERIF, "evidence")
+        os.makedirs(evdir, exist_ok=True)
+        json.dump(ev, open(os.path.join(evdir, pid + ".json"), "w"), indent=1, default=str)
 
     for k in known_hits.values():
         print(f"KNOWN-FINDING: property={pid} {k['id']} {k['what']}")
